@@ -8,6 +8,7 @@ import (
 	"errors"
 	"fmt"
 	"hash/fnv"
+	"math/big"
 	"os"
 	"strconv"
 	"strings"
@@ -315,8 +316,20 @@ func execLine(h *hist, line string) (out string) {
 		return rv(field.VerifExpPMin3Div4(field.New(), x))
 	case "F.sqrt":
 		u, v := fe(parseL(a[0])), fe(parseL(a[1]))
-		y, f := field.New().SqrtRatio(u, v)
-		return join(rv(y), kv("f", strconv.FormatUint(f, 10)))
+		r := field.New()
+		switch aliasChoice(line, 3) { // the receiver may be either operand
+		case 1:
+			r = u
+		case 2:
+			r = v
+		}
+		y, f := r.SqrtRatio(u, v)
+		// the square of the returned value, computed with math/big from its raw limbs (independent of the code under test):
+		// the specification fixes the flag and this square, not which of the two roots is returned
+		yv := modP(new(big.Int).Mul(limbsToBig(feL(y)), rInvP))
+		sq := make([]byte, 32)
+		modP(new(big.Int).Mul(yv, yv)).FillBytes(sq)
+		return join(rv(y), kv("f", strconv.FormatUint(f, 10)), kv("sq", showB(sq)))
 	case "F.sgn":
 		return kv("r", strconv.FormatUint(fe(parseL(a[0])).Sgn0(), 10))
 	case "F.iszero":
@@ -548,6 +561,24 @@ func execLine(h *hist, line string) (out string) {
 		return kv("r", strconv.Itoa(p.Equal(p)))
 	case "PT.isid":
 		return kv("r", b2s(el(parseP(a)).IsIdentity()))
+	case "PT.viaid":
+		// a[0..2]: a point P; a[3..5]: a point Q; a[6]: route by which a variable holding P is turned into the identity
+		mk := func() *secp.Element {
+			p := el(parseP(a[0:3]))
+			switch a[6] {
+			case "identity":
+				p.Identity()
+			case "mulnil":
+				p.Multiply(nil)
+			default:
+				_ = p.Decode([]byte{0})
+			}
+			return p
+		}
+		q := func() *secp.Element { return el(parseP(a[3:6])) }
+		return join(kv("c", showB(stable(q().Add(mk()).Encode))), kv("c1", showB(mk().Add(q()).Encode())),
+			kv("c2", showB(q().Subtract(mk()).Encode())), kv("c3", showB(mk().Double().Add(q()).Encode())),
+			kv("c4", showB(mk().Negate().Add(q()).Encode())), kv("c5", b2s(mk().Add(mk()).IsIdentity())))
 	case "PT.enc":
 		p := el(parseP(a))
 		mb := stable(func() []byte { b, _ := p.MarshalBinary(); return b })
